@@ -642,6 +642,26 @@ AutoBad(st, style, a) ==
        \cup (IF a.dec.empty = 1 /\ ~(a.status = "error" /\ a.empty = 1) THEN {<<"unknown decoration renders">>} ELSE {})
        \cup (IF a.dec.empty = 0 /\ a.status # "ok" THEN {<<"known decoration does not render">>} ELSE {})
 
+st_has_reg(st) == DOMAIN st.reg # {} /\ st.defdec # <<>>
+
+\* a render through the auto package (C10: the auto package given the corresponding style agrees with the
+\* sub-package): the format is the one the style denotes, and where the statement determines the decoration
+\* it is the registered one (op.rkind / op.dec are what auto.Wrap of that style actually is)
+AutoRenderBad(st, op) ==
+  LET style == op.auto
+      k == AutoKind(style)
+      dec == DecOf(op)
+      \* the decoration of name n (where determined) must be the registered one, unknown iff not registered
+      NameBad(n) == DecDetermined(st, n)
+                    /\ ((dec.empty = 1) # (RegLookup(st, n).empty = 1) \/ (dec.empty # 1 /\ dec # RegLookup(st, n)))
+  IN IF op.rkind # k THEN TRUE
+     ELSE IF k # "text" THEN FALSE
+     ELSE IF Lower(Sec1(style)) = "texttable"
+          THEN (IF ~HasRest(style) THEN dec # st.defdec
+                ELSE IF style \in DOMAIN st.reg THEN dec # st.reg[style]
+                ELSE NameBad(Rest(style)))
+          ELSE NameBad(style)
+
 SubPackageStyles == {"csv", "html", "json", "markdown"}
 
 StylesBad(st, s) ==
@@ -689,6 +709,8 @@ BadResMore(s, ns, op, res) ==
        \cup (IF "rep" \in DOMAIN res /\ res.rep.equal # 1 THEN {"res.rep"} ELSE {})
        \* C06: a second, independent reader (encoding/xml, strict) sees the same token structure as the tokenizer
        \cup (IF "xmlok" \in DOMAIN res /\ res.xmlok = 0 THEN {"res.lexer"} ELSE {})
+       \* C10 / C19: rendering through the auto package resolves the style as documented
+       \cup (IF "auto" \in DOMAIN op /\ "rkind" \in DOMAIN op /\ st_has_reg(s) /\ AutoRenderBad(s, op) THEN {"res.autostyle"} ELSE {})
        \* C16: the same bytes as when the same scenario ran alone
        \cup (IF "solo" \in DOMAIN res /\ res.solo # 1 THEN {"res.solo"} ELSE {})
        \* the wrapper renders with the decoration that was last set on it
